@@ -2410,8 +2410,8 @@ class Statements(Sequence, Immutable):
         else:
             keep = set()
         candidates -= keep
-        # Other dependencies after removed_ind
-        additional = {down for up, down in graph.edges if up > removed_ind and down in candidates}
+        # Dependencies of all other statements that are kept
+        additional = {down for up, down in graph.edges if up not in candidates and down in candidates}
         for add in additional.copy():
             additional |= set(nx.dfs_preorder_nodes(graph, add))
         remove = candidates - additional
